@@ -1,5 +1,6 @@
 \* the poller driving the storage, split at its waits, against an arbitrary data source and a
 \* moving head: head 0..2, <= 2 slots, any number of ticks
+\* measured: 6,426 distinct / 313,489 generated states, depth 20 (~7 s)
 CONSTANTS
   MaxHead = 2
   MaxSlots = 2
